@@ -115,9 +115,10 @@ class LoopSpec:
 
 
 class FuncSpec:
-    def __init__(self, loops=None, inline=True):
+    def __init__(self, loops=None, inline=True, ghost_locals=None):
         self.loops = {l.fingerprint: l for l in (loops or [])}
         self.seen_loops = set()
+        self.ghost_locals = ghost_locals or {}
 
 
 class Module:
@@ -462,6 +463,9 @@ class Interp:
             kwargs = {}
         if kwargs:
             raise OutOfSubset("unexpected kwargs %s for %s" % (list(kwargs), clo.qualname))
+        spec = self.funcspecs.get(key)
+        for gname, make in (getattr(spec, 'ghost_locals', None) or {}).items():
+            frame[gname] = make()          # ghost variables of the contract (never read or written by the real code; updated by models only)
         fid = self.state.new_frame(frame)
         ctx = ExecCtx(self, clo.module, key, clo.qualname, list(clo.frames) + [fid])
         try:
